@@ -377,3 +377,120 @@ func selectorMatches(sel, lbls map[string]string) bool {
 	}
 	return true
 }
+
+// CanarySteadyState: with a canary held open (manual validation, not paused, not failed), the
+// cooperative kubelet runs for a bounded number of rounds; then every eligible non-canary node
+// must run a Ready pod of the active template, every eligible canary node a Ready pod of the
+// new template carrying the canary label, and no pod of the new template may exist elsewhere.
+func (w *World) CanarySteadyState(ns, name string) {
+	in, active, up := w.CanaryInProgress(ns, name)
+	e := kit.GetEDS(w.S, ns, name)
+	if !in || e == nil || active == nil || up == nil || e.Status.Canary == nil || e.Status.Canary.ReplicaSet != up.Name {
+		return
+	}
+	c := e.Spec.Strategy.Canary
+	if c.ValidationMode != v1.ExtendedDaemonSetSpecStrategyCanaryValidationModeManual {
+		return
+	}
+	if oracle.RSCond(up, v1.ConditionTypeCanaryFailed) {
+		return
+	}
+	ann := e.Annotations
+	for _, k := range []string{v1.ExtendedDaemonSetRollingUpdatePausedAnnotationKey, v1.ExtendedDaemonSetRolloutFrozenAnnotationKey, v1.ExtendedDaemonSetCanaryPausedAnnotationKey} {
+		if _, ok := ann[k]; ok {
+			w.Annotate(ns, name, k, "")
+		}
+	}
+	w.Coop = true
+	w.tracef("--- canary steady-state phase for %s/%s ---", ns, name)
+	if oracle.RSCond(up, v1.ConditionTypeCanaryPaused) {
+		if err := w.Kubectl("canary-unpause", ns, name); err != nil {
+			return
+		}
+	}
+	nNodes := len(kit.Nodes(w.S))
+	bound := 12 + 8*nNodes
+	check := func() string {
+		e := kit.GetEDS(w.S, ns, name)
+		in, active, up := w.CanaryInProgress(ns, name)
+		if e == nil || !in || e.Status.Canary == nil || up == nil || active == nil {
+			return "canary no longer in progress"
+		}
+		canary := map[string]bool{}
+		for _, n := range e.Status.Canary.Nodes {
+			canary[n] = true
+		}
+		am, um := kit.MarkerOfTemplate(&active.Spec.Template), kit.MarkerOfTemplate(&up.Spec.Template)
+		byNode := map[string][]*corev1.Pod{}
+		for _, p := range w.DaemonPods(ns, name) {
+			if p.Status.Phase != corev1.PodUnknown {
+				byNode[kit.NodeOfPod(p)] = append(byNode[kit.NodeOfPod(p)], p)
+			}
+		}
+		for _, n := range kit.Nodes(w.S) {
+			pods := byNode[n.Name]
+			if canary[n.Name] {
+				if !oracle.Eligible(n, &up.Spec.Template.Spec) {
+					continue
+				}
+				if len(pods) != 1 || kit.MarkerOfPod(pods[0]) != um || !kit.IsReady(pods[0]) {
+					return "canary node " + n.Name + " not served by a Ready pod of the new template"
+				}
+				if pods[0].Labels[v1.ExtendedDaemonSetReplicaSetCanaryLabelKey] != v1.ExtendedDaemonSetReplicaSetCanaryLabelValue {
+					return "label-on: canary pod on " + n.Name + " lacks the canary label"
+				}
+				continue
+			}
+			for _, p := range pods {
+				if kit.MarkerOfPod(p) == um && um != am {
+					return "confinement: pod of the new template on non-canary node " + n.Name
+				}
+			}
+			if !oracle.Eligible(n, &active.Spec.Template.Spec) {
+				continue
+			}
+			if len(pods) != 1 || kit.MarkerOfPod(pods[0]) != am || !kit.IsReady(pods[0]) || pods[0].DeletionTimestamp != nil {
+				return "others-served: non-canary node " + n.Name + " not served by a Ready pod of the active template"
+			}
+		}
+		return ""
+	}
+	why := "not run"
+	for i := 0; i < bound; i++ {
+		w.Round(2 * time.Second)
+		if why = check(); why == "" {
+			break
+		}
+		if why == "canary no longer in progress" {
+			return
+		}
+	}
+	if _, _, upNow := w.CanaryInProgress(ns, name); why != "" && upNow != nil && (oracle.RSCond(upNow, v1.ConditionTypeCanaryPaused) || oracle.RSCond(upNow, v1.ConditionTypeCanaryFailed)) {
+		// pods that restarted during the hostile phase legitimately auto-paused / auto-failed the canary meanwhile
+		w.Ctx.Count("C04.steady-excluded-auto-paused-or-failed")
+		return
+	}
+	w.Ctx.Count("C04.canary-steady-states-judged")
+	if why != "" {
+		if strings.Contains(w.LastErr["eds "+ns+"/"+name], "unable to select enough node") {
+			w.Ctx.Count("C04.excluded-unsatisfiable-canary")
+			return
+		}
+		rule := "C04.others-served"
+		if strings.HasPrefix(why, "label-on") {
+			rule = "C04.label-on"
+		} else if strings.HasPrefix(why, "confinement") {
+			rule = "C04.confined-create"
+		} else if strings.HasPrefix(why, "canary node") {
+			rule = "C04.canary-nodes-served"
+		}
+		ee := kit.GetEDS(w.S, ns, name)
+		_, _, upNow := w.CanaryInProgress(ns, name)
+		conds := ""
+		if upNow != nil {
+			conds = fmt.Sprintf("%s: %+v", upNow.Name, upNow.Status.Conditions)
+		}
+		w.Mon.viol("C04", rule, map[string]string{"phase": "steady-state"}, nil, map[string]any{"why": why, "bound": bound, "pods": w.podSummary(ns, name),
+			"eds-annotations": ee.Annotations, "eds-status": fmt.Sprintf("state=%s canary=%+v", ee.Status.State, ee.Status.Canary), "canary-rs-conditions": conds})
+	}
+}
